@@ -11,7 +11,7 @@ import harness as H
 
 CORPUS = os.path.join(H.ROOT, "corpus")
 DOMAIN = {"C17": "table", "C18": "cache", "C19": "raw", "C20": "eda"}
-BUDGET = {"quick": {"n": 240, "ops": 70}, "thorough": {"n": 6000, "ops": 300}}
+BUDGET = {"quick": {"n": 500, "ops": 80}, "thorough": {"n": 6000, "ops": 300}}
 
 
 # ------------------------------------------------------------------------------------------------ generators
@@ -185,8 +185,10 @@ GEN = {"C17": gen_table, "C18": gen_cache, "C19": gen_raw, "C20": gen_eda}
 
 def histories(pid, tier, seed):
     b = BUDGET[tier]
+    import props
+    factor = props.escalation(pid)[0] if tier == "quick" else 1
     master = random.Random(seed * 7919 + int(pid[1:]))
-    for i in range(b["n"]):
+    for i in range(b["n"] * factor):
         hseed = master.randrange(1 << 48)
         rng = random.Random(hseed)
         lines, meta = GEN[pid](rng, b["ops"] if i % 4 else b["ops"] * 3)
@@ -234,7 +236,7 @@ def run_one(item, pid, wdir, profiles):
     model = H.run_model(hp, timeout=120)
     traces = {}
     for prof in profiles:
-        impl = H.run_impl(hp, oracle=True, profile=prof, timeout=meta.get("timeout", 4 if pid == "C19" else 20))
+        impl = H.run_impl(hp, oracle=True, profile=prof, timeout=meta.get("timeout", 4))
         traces[prof] = impl["lines"]
         res["status"][prof] = impl["status"]
         res["oracle"] += [l + " [%s build]" % prof for l in impl["oracle"] if l.split(" ", 2)[1] == pid]
@@ -253,12 +255,16 @@ def run_one(item, pid, wdir, profiles):
     return res
 
 
-def shrink_lines(lines, fails, budget=150):
+def shrink_lines(lines, fails, budget=150, max_seconds=40):
     header, body = lines[:1], lines[1:]
     calls = [0]
+    t_end = time.time() + max_seconds
 
     def test(b):
         calls[0] += 1
+        if time.time() > t_end:
+            calls[0] = budget + 1000
+            return False
         return fails(header + b)
     # truncate
     lo, hi = 0, len(body)
@@ -289,13 +295,13 @@ def run_property(pid, tier, seed, spec):
     profiles = spec.get("profiles", ("release",))
     items = corpus(pid) + list(histories(pid, tier, seed))
     t0 = time.time()
-    results = H.pmap(lambda it: run_one(it, pid, wdir, profiles), items)
+    results, items = H.pmap_until(lambda it: run_one(it, pid, wdir, profiles), items, lambda r: bool(r["oracle"]))
     failures, diffs = [], []
     fail_res = [r for r in results if r["oracle"]]
     diff_res = [r for r in results if not r["agree"] and not r["oracle"]]
     if diff_res and not fail_res:
-        extra = list(histories(pid, "thorough", seed + 101))[:2000]
-        more = H.pmap(lambda it: run_one(it, pid, wdir, profiles), extra)
+        extra = [("wide-" + n, ls, m) for (n, ls, m) in list(histories(pid, "thorough", seed + 101))[:2000]]
+        more, _ = H.pmap_until(lambda it: run_one(it, pid, wdir, profiles), extra, lambda r: bool(r["oracle"]), enough=3)
         fail_res = [r for r in more if r["oracle"]]
     for k, r in enumerate(sorted(fail_res, key=lambda r: r["nlines"])[:3]):
         lines = [l.rstrip("\n") for l in open(r["path"])]
